@@ -79,6 +79,14 @@ pub fn parse_path(p: &str) -> Result<Vec<String>, ()> {
     Ok(names)
 }
 
+/// Do two normalised paths name the same object (component-wise, case-insensitively)?
+pub fn same_path_ci(a: &str, b: &str) -> bool {
+    match (parse_path(a), parse_path(b)) {
+        (Ok(x), Ok(y)) => x.len() == y.len() && x.iter().zip(y.iter()).all(|(p, q)| cfb_eq(p, q)),
+        _ => false,
+    }
+}
+
 pub fn join(names: &[String]) -> String {
     if names.is_empty() {
         "/".to_string()
@@ -390,7 +398,7 @@ impl Model {
         };
         let dirty = self.dirty_paths();
         for (g, w) in l.iter().zip(want.iter()) {
-            let skip_len = dirty.iter().any(|d| d == &w.path);
+            let skip_len = dirty.iter().any(|d| same_path_ci(d, &w.path));
             Model::cmp_entry(g, w, false, skip_len, what)?;
         }
         Ok(())
@@ -925,7 +933,7 @@ impl Model {
         };
         let dirty = self.dirty_paths();
         for (g, w) in l.iter().zip(want.iter()) {
-            let skip_len = dirty.iter().any(|d| d == &w.path);
+            let skip_len = dirty.iter().any(|d| same_path_ci(d, &w.path));
             Model::cmp_entry(g, w, true, skip_len, what)?;
         }
         Ok(())
